@@ -211,7 +211,8 @@ def t_r3(p: Project, rep: Report):
                 if not members:
                     ok, why = False, f"a path returns {rtxt[:60]} without any `in self.valid` test"
                     continue
-                goal = PT.any_of(*[PT.any_of(PT.atom(m), PT.atom(m[: -len(' in self.valid')] + " is None")) for m in members])
+                # the membership that counts is that of the value actually returned
+                goal = PT.any_of(PT.atom(f"{rtxt} in self.valid"), PT.atom(f"{rtxt} is None"))
                 imp = PT.implies(pth.conds, goal)
                 if imp is False:
                     ok, why = False, f"a path returns {rtxt[:60]} although its conditions do not establish membership in self.valid"
